@@ -5,7 +5,7 @@ Import ListNotations.
 Open Scope Z_scope.
 
 Lemma fits_ok rs : Forall rec_fits rs -> Forall (rec_ok enc_record dec_record_slice) rs.
-Proof. intros H. eapply Forall_impl; [|exact H]. intros r [W L]. apply rec_wf_ok; assumption. Qed.
+Proof. intros H. eapply Forall_impl; [|exact H]. intros r (W & L & B). apply rec_wf_ok; assumption. Qed.
 
 Lemma clean_cycle_real_l cfg ss :
   no_crash ss = true -> forallb kclean (real_flags cfg ss) = true -> Forall rec_fits (real_logs cfg ss) ->
@@ -19,6 +19,7 @@ Lemma crash_recovers_last_close_real_l cfg ss st os d' :
   no_crash ss = true -> forallb kclean (real_flags cfg ss) = true ->
   snd (real_sessions cfg ss) = ROk st ->
   Forall rec_fits (real_logs cfg ss ++ ops_logs crc32 enc_record cfg st os) ->
+  forallb (fun o => negb (is_cp_op o)) os = true ->
   w_seq (db_w (fst (real_ops cfg st os))) = w_seq (db_w st) ->
   crash (wdrop (db_w (fst (real_ops cfg st os)))) d' ->
   exists st2, real_open d' = ROk st2 /\ db_store st2 = db_store st.
@@ -28,7 +29,7 @@ Proof.
 Qed.
 
 Lemma import_export_real_l s :
-  snap_wf (snapshot_of s) -> store_wf s -> epoch_clean s = true -> names_max_id (snapshot_of s) = false ->
+  snap_wf (snapshot_of s) -> store_wf s -> epoch_clean s = true ->
   exists c, import dec_snapshot (export enc_snapshot s) = IOk c /\ dump c latest = dump s latest
             /\ dump c (s_epoch c) = dump s latest.
 Proof. intros W. apply import_export_l, snap_wf_carried, W. Qed.
@@ -37,12 +38,12 @@ Proof. intros W. apply import_export_l, snap_wf_carried, W. Qed.
     to_memory dump exactly as the source *)
 Lemma api_store_copies_l os :
   let s := fst (run_store os) in
-  k07_1 s = false -> snap_wf (snapshot_of s) -> names_max_id (snapshot_of s) = false ->
+  k07_1 s = false -> snap_wf (snapshot_of s) ->
   (exists c, import dec_snapshot (export enc_snapshot s) = IOk c /\ dump c latest = dump s latest
              /\ dump c (s_epoch c) = dump s latest)
   /\ dump (to_memory s) latest = dump s latest.
 Proof.
-  cbv zeta. intros K W M. pose proof (api_store_wf os) as WF. pose proof (api_store_clean os K) as C. split.
+  cbv zeta. intros K W. pose proof (api_store_wf os) as WF. pose proof (api_store_clean os K) as C. split.
   - apply import_export_real_l; assumption.
   - apply to_memory_l; assumption.
 Qed.
